@@ -1,2 +1,3 @@
 pub mod c15;
 pub mod c07;
+pub mod c16;
